@@ -1203,6 +1203,7 @@ pub fn run_c09p(o: &crate::Opts) {
     let per = total / o.nshards as u64;
     let mut n_min = 0u64;
     let mut n_stdin = 0u64;
+    let mut n_inter = 0u64;
     for _ in 0..per {
         let p = loop {
             let p = gen_structured(&mut rng);
@@ -1218,6 +1219,13 @@ pub fn run_c09p(o: &crate::Opts) {
             1 => Some('\n'),
             _ => None,
         };
+        // half of those: the script ends in `continue` instead of `quit` — the program then runs
+        // to its end WITH the debugger attached, reading its input from the same stream (no
+        // breakpoints, so nothing pauses it on the way)
+        let interleaved = via.is_some() && rng.chance(1, 2);
+        if interleaved {
+            c.breaks.clear();
+        }
         let mut lines: Vec<String> = Vec::new();
         for _ in 0..rng.below(10) {
             let cmd = crate::dbg::rand_nonmutating(&mut rng, p.orig, n, &c.labels);
@@ -1226,9 +1234,14 @@ pub fn run_c09p(o: &crate::Opts) {
             if via.is_some() && cmd.resumes() {
                 continue;
             }
+            if interleaved && matches!(cmd, crate::dbg::Cmd::BreakAdd(_)) {
+                continue;
+            }
             lines.push(crate::dbg::spell_cmd(&mut rng, &cmd));
         }
-        if !p.inp.is_empty() || via.is_some() || rng.chance(1, 2) {
+        if interleaved {
+            lines.push("continue".into());
+        } else if !p.inp.is_empty() || via.is_some() || rng.chance(1, 2) {
             lines.push("quit".into());
         }
         c.cmds = vec![];
@@ -1239,19 +1252,25 @@ pub fn run_c09p(o: &crate::Opts) {
             n_min += 1;
         }
         let src = c.source();
-        let obs = one(&dir, &src, &script, &p.inp, p.stack, minimal, via);
+        // interleaved: whatever input the program leaves unread is read by the debugger as
+        // commands when the program has ended; keep it to characters that spell no command
+        let inp: Vec<u8> = if interleaved { p.inp.iter().map(|b| b"#$%&*()!?<>@~"[*b as usize % 13]).collect() } else { p.inp.clone() };
+        let obs = one(&dir, &src, &script, &inp, p.stack, minimal, via);
         if obs == "skip-timeout" {
             continue;
         }
         if via.is_some() {
             n_stdin += 1;
         }
+        if interleaved {
+            n_inter += 1;
+        }
         sink.put(
-            &format!("Z09 {} {} {} {} {} {}", p.stack as u8, minimal as u8, hex(src.as_bytes()), hex(script.as_bytes()), hex(&p.inp),
+            &format!("Z09 {} {} {} {} {} {}", p.stack as u8, minimal as u8, hex(src.as_bytes()), hex(script.as_bytes()), hex(&inp),
                 match via { Some(';') => "S3b", Some(_) => "S0a", None => "A" }),
             &obs,
         );
     }
     let n_cases = sink.n;
-    sink.finish(o, &format!("{{\"cases\":{},\"process_pairs_minimal\":{},\"script_on_stdin_before_program_input\":{},\"samples\":[]}}", n_cases, n_min, n_stdin));
+    sink.finish(o, &format!("{{\"cases\":{},\"process_pairs_minimal\":{},\"script_on_stdin_before_program_input\":{},\"of_those_program_reads_while_attached\":{},\"samples\":[]}}", n_cases, n_min, n_stdin, n_inter));
 }
